@@ -2,6 +2,7 @@
 // list orders not aligned with dependencies, incorrect members; all selections of <= 3.
 #include "common.hpp"
 #include "frag.hpp"
+#include "verif_seed.hpp"
 #include "ccl/semantic/RSForm.h"
 #include "ccl/ops/RSOperations.h"
 #include <algorithm>
@@ -158,6 +159,7 @@ static void oneSchema(vh::Rng& rng, bool general) {
 int main() {
   vh::Rng rng(vh::seedFromEnv());
   const bool deep = vh::thorough();
+  ccl::verif::Seed(7U);
   // corpus: list X1 D2 D1 with D1:=X1, D2:=D1 (the pinned single-scan defect)
   {
     RSForm f;
@@ -169,6 +171,7 @@ int main() {
     runOps(f, { x1 });
   }
   const int N = deep ? 1500 : 150;
-  for (int i = 0; i < N; ++i) { vh::Rng sub(rng.next()); vh::forkedEmit([&] { oneSchema(sub, i % 2 == 1); }, "c13 crash"); }
+  ccl::verif::Seed(7U);
+  for (int i = 0; i < N; ++i) { const auto cs = rng.next(); vh::Rng sub(cs); vh::forkedEmit([&] { ccl::verif::Seed(static_cast<uint32_t>(cs)); oneSchema(sub, i % 2 == 1); }, "c13 crash"); }
   return 0;
 }
